@@ -1802,7 +1802,7 @@ class MacroExpander:
 
         self.parser_stack.append(ExpanderHelper(tokens))
         self.parser_stack[-1].pre_expand = pre_expand
-        self.no_expand.append(str(ident))
+        self.no_expand.append(ident)
 
         try:
             while True:
